@@ -163,7 +163,85 @@ fn op_tcp(cuts: &str, stream: &[u8]) -> String {
     r.unwrap_or_else(|_| "P".into())
 }
 
+/// Payload of the `k`-th Piece message of a `snd` run.
+pub fn snd_block(k: usize, len: usize) -> Vec<u8> {
+    (0..len).map(|j| ((k * 31 + j * 7 + 3) % 251) as u8).collect()
+}
+
+fn fnv64(data: &[u8]) -> u64 {
+    let mut h: u64 = 0xcbf29ce484222325;
+    for b in data {
+        h ^= *b as u64;
+        h = h.wrapping_mul(0x100000001b3);
+    }
+    h
+}
+
+/// `snd <n> <len> <delay ms>`: the socket branch of `send_msg` under back-pressure. `n` Piece messages (each followed by a
+/// Have) are written with `Connection::send_msg` to a loopback TCP socket with the smallest buffers the OS grants, while the
+/// remote does not read for `delay` ms; then it reads everything. Reports the length and FNV-1a hash of what arrived.
+fn op_snd(n: usize, len: usize, delay_ms: u64) -> String {
+    let r = catch(|| {
+        rt().block_on(async move {
+            use tokio::io::AsyncReadExt;
+            let lsock = tokio::net::TcpSocket::new_v4().unwrap();
+            let _ = lsock.set_recv_buffer_size(2048);
+            lsock.bind("127.0.0.1:0".parse().unwrap()).unwrap();
+            let listener = lsock.listen(4).unwrap();
+            let addr = listener.local_addr().unwrap();
+            let reader = tokio::spawn(async move {
+                let (mut s, _) = listener.accept().await.unwrap();
+                tokio::time::sleep(std::time::Duration::from_millis(delay_ms)).await;
+                let mut all: Vec<u8> = vec![];
+                let mut buf = vec![0u8; 65536];
+                loop {
+                    match tokio::time::timeout(std::time::Duration::from_secs(10), s.read(&mut buf)).await {
+                        Ok(Ok(0)) => break,
+                        Ok(Ok(k)) => all.extend_from_slice(&buf[..k]),
+                        _ => break,
+                    }
+                }
+                all
+            });
+            let csock = tokio::net::TcpSocket::new_v4().unwrap();
+            let _ = csock.set_send_buffer_size(2048);
+            let stream = csock.connect(addr).await.unwrap();
+            let mut conn = Connection::new(addr.to_string());
+            conn.with_socket(stream);
+            let mut err = String::new();
+            for k in 0..n {
+                let m = M::Pc(k as u32, 0, snd_block(k, len));
+                let sent = tokio::time::timeout(std::time::Duration::from_secs(20), async {
+                    match &m {
+                        M::Pc(i, b, blk) => conn.send_msg(&Piece::new(*i as usize, *b as usize, blk.clone())).await.is_ok(),
+                        _ => true,
+                    }
+                })
+                .await;
+                if sent != Ok(true) {
+                    err = format!("ERR-send-{}", k);
+                    break;
+                }
+                if conn.send_msg(&Have::new(k)).await.is_err() {
+                    err = format!("ERR-send-have-{}", k);
+                    break;
+                }
+            }
+            drop(conn);
+            let all = reader.await.unwrap_or_default();
+            if !err.is_empty() {
+                return err;
+            }
+            format!("len={} fnv={:016x}", all.len(), fnv64(&all))
+        })
+    });
+    r.unwrap_or_else(|_| "P".into())
+}
+
 pub fn run(args: &[&str]) -> String {
+    if args[0] == "snd" {
+        return op_snd(args[1].parse().unwrap(), args[2].parse().unwrap(), args[3].parse().unwrap());
+    }
     if args[0] == "hand" {
         return crate::hand::run(args);
     }
